@@ -489,6 +489,112 @@ pub fn loops_case(mut i: u64) -> IgsCase {
 }
 
 // ---------------------------------------------------------------------------------------------------------
+// pairs part: every attribute-setting command with every selector value, followed by every drawing command with
+// ordinary in-canvas parameters (state-dependent defects, found deterministically)
+
+fn mk(cmd: u8, params: &[u32], text: &[u8]) -> IgsSeg {
+    IgsSeg { cmd, gt: true, params: params.iter().map(|v| v.to_string()).collect(), text: Bytes(text.to_vec()), term: 1, lp: None }
+}
+
+pub struct Pairs {
+    setters: Vec<IgsSeg>,
+    drawers: Vec<IgsSeg>,
+}
+
+impl Pairs {
+    pub fn new() -> Pairs {
+        let mut s = Vec::new();
+        for ty in 0..=4 {
+            for idx in [0, 1, 5, 12, 24, 25] {
+                for border in [0, 1] {
+                    s.push(mk(b'A', &[ty, idx, border], b""));
+                }
+            }
+        }
+        for pen in 0..=3 {
+            for col in [0, 1, 15, 16, 255] {
+                s.push(mk(b'C', &[pen, col], b""));
+            }
+        }
+        for ty in 1..=6 {
+            for size in [1, 8] {
+                s.push(mk(b'T', &[1, ty, size], b""));
+            }
+        }
+        for ty in 1..=7 {
+            for size in [1, 3] {
+                s.push(mk(b'T', &[2, ty, size], b""));
+            }
+        }
+        for m in 1..=4 {
+            s.push(mk(b'M', &[m], b""));
+        }
+        for e in [[0, 8, 0], [1, 10, 1], [16, 20, 2], [0, 9, 3], [2, 18, 4]] {
+            s.push(mk(b'E', &e, b""));
+        }
+        for h in [0, 1] {
+            s.push(mk(b'H', &[h], b""));
+        }
+        for res in [0, 1] {
+            for pal in 0..=2 {
+                s.push(mk(b'R', &[res, pal], b""));
+            }
+        }
+        for i in 0..=3 {
+            s.push(mk(b'I', &[i], b""));
+        }
+        s.push(mk(b'G', &[1, 3, 0, 0, 40, 40], b""));
+        s.push(mk(b'G', &[1, 3, 0, 0, 319, 199], b""));
+        for g in 0..=2 {
+            s.push(mk(b'g', &[g], b""));
+        }
+        for c in 0..=5 {
+            s.push(mk(b's', &[c], b""));
+        }
+        s.push(mk(b'S', &[0, 7, 7, 7], b""));
+        s.push(mk(b'S', &[15, 0, 0, 0], b""));
+        for k in [0, 1] {
+            s.push(mk(b'k', &[k], b""));
+        }
+        for q in 9995..=9999 {
+            s.push(mk(b'q', &[q], b""));
+        }
+        let mut d = Vec::new();
+        d.push(mk(b'B', &[10, 10, 100, 50, 0], b""));
+        d.push(mk(b'B', &[10, 10, 100, 50, 1], b""));
+        d.push(mk(b'D', &[100, 100], b""));
+        d.push(mk(b'F', &[50, 50], b""));
+        d.push(mk(b'f', &[3, 10, 10, 100, 10, 50, 80], b""));
+        d.push(mk(b'J', &[100, 100, 50, 30, 0, 90], b""));
+        d.push(mk(b'K', &[100, 100, 50, 0, 90], b""));
+        d.push(mk(b'L', &[10, 10, 200, 100], b""));
+        d.push(mk(b'z', &[3, 10, 10, 100, 10, 50, 80], b""));
+        d.push(mk(b'O', &[100, 100, 40], b""));
+        d.push(mk(b'P', &[50, 50], b""));
+        d.push(mk(b'Q', &[100, 100, 50, 30], b""));
+        d.push(mk(b'U', &[10, 10, 100, 50, 0], b""));
+        d.push(mk(b'U', &[10, 10, 100, 50, 1], b""));
+        d.push(mk(b'V', &[100, 100, 50, 0, 90], b""));
+        d.push(mk(b'W', &[20, 50], b"Hi"));
+        d.push(mk(b'Y', &[100, 100, 50, 30, 0, 90], b""));
+        d.push(mk(b'Z', &[10, 10, 100, 50], b""));
+        d.push(mk(b'G', &[0, 3, 0, 0, 20, 20, 100, 100], b""));
+        d.push(mk(b'G', &[2, 3, 50, 50], b""));
+        d.push(mk(b'G', &[3, 3, 0, 0, 10, 10, 60, 60], b""));
+        d.push(mk(b'c', &[1, 2], b""));
+        d.push(mk(b'p', &[5, 5], b""));
+        Pairs { setters: s, drawers: d }
+    }
+    pub fn total(&self) -> u64 {
+        (self.setters.len() * self.drawers.len()) as u64
+    }
+    pub fn case(&self, i: u64) -> IgsCase {
+        let nd = self.drawers.len() as u64;
+        IgsCase { prefix: 0, segs: vec![self.setters[(i / nd) as usize].clone(), self.drawers[(i % nd) as usize].clone()] }
+    }
+}
+
+// ---------------------------------------------------------------------------------------------------------
 // random part
 
 fn value() -> BoxedStrategy<String> {
